@@ -66,7 +66,20 @@ def origin_factory(name="origin", role="origin", via_tls=False):
 
 
 def tls_origin_factory(cert="any", name="origin"):
-    return lambda w, chan: T.TlsPeer(w, chan, origin_factory(name, "origin", True), cert=cert, name=name)
+    def f(w, chan):
+        q = w.sc.get("certs") if w.sc else None
+        c = cert
+        if q:
+            i = w.tags.setdefault("cert_i", 0)
+            if i < len(q):
+                c = q[i]
+            w.tags["cert_i"] = i + 1
+        if c.startswith("bad_"):
+            w.attempts.append(("other", "tls-untrusted", chan.sid))
+            w.faults_fired["tls:untrusted"] += 1
+        return T.TlsPeer(w, chan, origin_factory(name, "origin", True), cert=c, name=name)
+
+    return f
 
 
 def std_world(sc: dict) -> W.World:
@@ -81,7 +94,7 @@ def std_world(sc: dict) -> W.World:
         w.default_listener = origin_factory("proxy", "proxy")
     elif path == "tunnel":
         w.default_listener = origin_factory("proxy", "proxy")
-        w.tunnel_factory = lambda w_, chan, target: T.TlsPeer(w_, chan, origin_factory("origin", "origin", True), cert="any", name="origin")
+        w.tunnel_factory = lambda w_, chan, target: tls_origin_factory()(w_, chan)
     elif path == "tunnel_tlsproxy":
         w.default_listener = lambda w_, chan: T.TlsPeer(w_, chan, origin_factory("proxy", "proxy", True), cert="proxy", name="proxy")
         w.tunnel_factory = lambda w_, chan, target: T.TlsPeer(w_, chan, origin_factory("origin", "origin", True), cert="any", name="origin")
@@ -109,10 +122,18 @@ class Client:
         self.manager = None
         if self.path == "direct":
             self.base = f"http://{ORIGIN}"
-            self.pool = urllib3.HTTPConnectionPool(ORIGIN, 80, **kw)
+            if cfg.get("entry") == "manager":
+                self.manager = urllib3.PoolManager(**kw)
+                self.pool = self.manager.connection_from_url(self.base + "/")
+            else:
+                self.pool = urllib3.HTTPConnectionPool(ORIGIN, 80, **kw)
         elif self.path == "direct_tls":
             self.base = f"https://{ORIGIN}"
-            self.pool = urllib3.HTTPSConnectionPool(ORIGIN, 443, ca_certs=T.CA_GOOD, **kw)
+            if cfg.get("entry") == "manager":
+                self.manager = urllib3.PoolManager(ca_certs=T.CA_GOOD, **kw)
+                self.pool = self.manager.connection_from_url(self.base + "/")
+            else:
+                self.pool = urllib3.HTTPSConnectionPool(ORIGIN, 443, ca_certs=T.CA_GOOD, **kw)
         elif self.path == "fwd":
             self.base = f"http://{ORIGIN}"
             self.manager = urllib3.ProxyManager(f"http://{PROXY_HOST}:{PROXY_PORT}", **kw)
